@@ -68,6 +68,16 @@ func c01Truncation(w *core.WorkerCtx) {
 	longScenario(w, []string{"C01"}, 1000, ledger.LongOpts{Nodes: 1, Size: 1050, Truncations: 2, Between: 1300, MultiTip: true, PostOps: 60})
 }
 
+func c09Truncation(w *core.WorkerCtx) {
+	if w.Batch != 0 && !w.Thorough() {
+		return
+	}
+	if w.Thorough() && w.Batch%8 != 0 {
+		return
+	}
+	longScenario(w, []string{"C09"}, 1000, ledger.LongOpts{Nodes: 2, Size: 1060, Truncations: 1, MultiTip: true, PostOps: 60})
+}
+
 func c02Truncation(w *core.WorkerCtx) {
 	if w.Batch != 0 && !w.Thorough() {
 		return
